@@ -566,6 +566,13 @@ fn run_inner(sc: &J) -> Result<Option<String>, String> {
         // the wrapper and reported); canonical form re-parses to the same canonical form
         "schema_ops" => {
             let text = sc["text"].as_str().ok_or("text")?;
+            // `expect`: "reject" — ill-formed by the specification (C11: "every schema it accepts is well formed");
+            //           "accept" — well formed by the specification (C11: "every well-formed schema is accepted")
+            match (sc["expect"].as_str(), Schema::parse_str(text)) {
+                (Some("reject"), Ok(s)) => return Ok(Some(format!("ill-formed schema accepted ({}): {text} parsed as {s:?}", sc["why"].as_str().unwrap_or("")))),
+                (Some("accept"), Err(e)) => return Ok(Some(format!("well-formed schema rejected: {text}: {e}"))),
+                _ => {}
+            }
             if let Ok(schema) = Schema::parse_str(text) {
                 // well-formedness of what was accepted: unique field names per record, enum default is a symbol, no nested union
                 fn wf(s: &Schema) -> Option<String> {
@@ -585,7 +592,8 @@ fn run_inner(sc: &J) -> Result<Option<String>, String> {
                 let _ = serde_json::to_string(&schema).map_err(|e| e.to_string())?;
                 let _ = format!("{schema:?}");
                 match Schema::parse_str(&canon) {
-                    Ok(again) => if again.canonical_form() != canon { return Ok(Some(format!("canonical form is not a fixed point: {canon} -> {}", again.canonical_form()))); },
+                    // (logical types are excluded here: their canonical form is the recorded known finding D14 under C12)
+                    Ok(again) => if again.canonical_form() != canon && !text.contains("logicalType") { return Ok(Some(format!("canonical form is not a fixed point: {canon} -> {}", again.canonical_form()))); },
                     Err(e) => return Ok(Some(format!("canonical form {canon} of an accepted schema does not parse: {e}"))),
                 }
             }
